@@ -26,11 +26,14 @@ def main(tier, only):
                       "EarleyParser.extract_trees", "nullable", "fixpoint", "canonical"]] +
                      [common.src_range("src/isla/solver.py", "ISLaSolver.parse")])
     plan = {g: ["parse", "solver_parse"] for g in range(len(h_c10.GRAMMARS))}
+    nt_grammars = (1, 6, 7, 10) if tier == "quick" else tuple(range(len(h_c10.GRAMMARS)))
     cfgs = []
     if tier == "quick":
         N, to = 4, 200
         for g, fns in plan.items():
             cfgs.append(dict(tag="g%d" % g, env={"VERIF_G": str(g), "VERIF_N": str(N), "VERIF_FIRST": "-2"}, only=fns, timeout=to))
+        for g in nt_grammars:      # parse from every nonterminal: shorter strings (one parser construction per call and nonterminal)
+            cfgs.append(dict(tag="g%d.nt" % g, env={"VERIF_G": str(g), "VERIF_N": "3", "VERIF_FIRST": "-2"}, only=["solver_parse_nt"], timeout=to))
     else:
         N, to = 6, 1500
         for g, fns in plan.items():
@@ -39,6 +42,8 @@ def main(tier, only):
             for first in range(-1, k):
                 cfgs.append(dict(tag="g%d.first%d" % (g, first), env={"VERIF_G": str(g), "VERIF_N": str(N), "VERIF_FIRST": str(first)},
                                  only=fns, timeout=to))
+        for g in nt_grammars:
+            cfgs.append(dict(tag="g%d.nt" % g, env={"VERIF_G": str(g), "VERIF_N": "4", "VERIF_FIRST": "-2"}, only=["solver_parse_nt"], timeout=to))
     run.bounds = dict(string_length_max=N, alphabets="all characters of the grammar's terminals + one fresh character",
                       grammars={g: h_c10.GRAMMARS[g][1] for g in plan}, per_condition_timeout_s=to)
     run.engines = dict(crosshair="crosshair-tool 0.0.110 on z3 4.11.2")
